@@ -76,7 +76,38 @@ mod verif_ops {
         assert!(q.wrapping_mul(y).wrapping_add(r) == x);
         assert!(r == 0 || (r < 0) == (x < 0));
         assert!(r.unsigned_abs() < y.unsigned_abs());
-        kani::cover!(x == i64::MIN && y == -1);
+        kani::cover!(r != 0);
+    }
+    // panic-freedom and result kind of / and % on every integer/byte operand pair with a non-zero divisor
+    // (cheap: no value claim), including MIN / -1 and MIN % -1
+    fn check_divrem_total(ka: K, kb: K) {
+        let (ia, ib): (i64, i64) = (kani::any(), kani::any());
+        let (ba, bb): (u8, u8) = (kani::any(), kani::any());
+        let (a, b) = (mk(ka, ia, 0.0, ba), mk(kb, ib, 0.0, bb));
+        kani::assume(!b.is_zero());
+        assert!(matches!(&a / &b, Object::Integer(_)));
+        assert!(matches!(&a % &b, Object::Integer(_)));
+        kani::cover!(ka == K::B || (ia == i64::MIN && as_i(kb, ib, bb) == -1) || kb == K::B);
+    }
+    #[kani::proof] fn c09_divrem_total_ii() { check_divrem_total(K::I, K::I); }
+    #[kani::proof] fn c09_divrem_total_ib() { check_divrem_total(K::I, K::B); }
+    #[kani::proof] fn c09_divrem_total_bi() { check_divrem_total(K::B, K::I); }
+    // the concrete corner: MIN / -1 == MIN and MIN % -1 == 0 (two's complement, no panic)
+    #[kani::proof]
+    fn c09_div_min_by_minus_one() {
+        let (a, b) = (Object::Integer(i64::MIN), Object::Integer(-1));
+        assert!(matches!(&a / &b, Object::Integer(i64::MIN)));
+        assert!(matches!(&a % &b, Object::Integer(0)));
+    }
+    // float / : result kind and no panic on every float-involving pair (value: thorough tier, c09_div_f*)
+    #[kani::proof]
+    fn c09_div_float_kind() {
+        let (fa, fb): (f64, f64) = (kani::any(), kani::any());
+        assert!(matches!(&Object::Float(fa) / &Object::Float(fb), Object::Float(_)));
+        assert!(matches!(&Object::Integer(kani::any()) / &Object::Float(fb), Object::Float(_)));
+        assert!(matches!(&Object::Float(fa) / &Object::Integer(kani::any()), Object::Float(_)));
+        assert!(matches!(&Object::Float(fa) / &Object::Byte(kani::any()), Object::Float(_)));
+        assert!(matches!(&Object::Byte(kani::any()) / &Object::Float(fb), Object::Float(_)));
     }
     #[kani::proof] fn c09_divrem_ii() { check_divrem(K::I, K::I); }
     #[kani::proof] fn c09_divrem_ib() { check_divrem(K::I, K::B); }
